@@ -30,6 +30,15 @@ pub enum RequestOptions {
         // groups: Vec<EtcGroup>,
         shadow: Vec<EtcShadow>,
     },
+    /// Verification harness: like `Main`, but the socket path and the fallback files' content
+    /// come from the caller instead of the system configuration.
+    #[cfg(feature = "verif-hooks")]
+    Verif {
+        sock_path: Option<String>,
+        sock_timeout: u64,
+        users: Vec<EtcUser>,
+        shadow: Vec<EtcShadow>,
+    },
 }
 
 thread_local! {
@@ -88,6 +97,23 @@ impl RequestOptions {
             } => {
                 if let Some(socket) = socket {
                     let client = DaemonClientBlocking::from(socket);
+                    let _ = CLIENT.replace(Some(client.clone()));
+                    Source::Daemon(client)
+                } else {
+                    Source::Fallback { users, shadow }
+                }
+            }
+            #[cfg(feature = "verif-hooks")]
+            RequestOptions::Verif {
+                sock_path,
+                sock_timeout,
+                users,
+                shadow,
+            } => {
+                let maybe_client = sock_path
+                    .and_then(|path| DaemonClientBlocking::new(path.as_str(), sock_timeout).ok());
+
+                if let Some(client) = maybe_client {
                     let _ = CLIENT.replace(Some(client.clone()));
                     Source::Daemon(client)
                 } else {
